@@ -305,70 +305,95 @@ def run(ctx):
     if not (ip and ir and sv):
         raise AnalysisError("anchor vanished: OpcPackage.iter_parts/iter_rels/save")
 
-    def visit_once(fnode, label, f):
-        """yield X  must be preceded (same block) by `if X in visited: continue` and followed by visited.add(X) -- or the
-        add precedes the recursion for the rel walker."""
-        probs = []
-        found = 0
-        for loop in [n for n in ast.walk(fnode) if isinstance(n, ast.For)]:
-            body = loop.body
-            guard_i = add_i = None
-            var = None
-            for i, st in enumerate(body):
-                if isinstance(st, ast.If) and isinstance(st.test, ast.Compare) and isinstance(st.test.ops[0], ast.In) \
-                        and dotted(st.test.comparators[0]) == "visited" and any(isinstance(x, ast.Continue) for x in st.body):
-                    guard_i, var = i, dotted(st.test.left)
-                if isinstance(st, ast.Expr) and isinstance(st.value, ast.Call) and dotted(st.value.func) == "visited.add":
-                    add_i = i
-                    addvar = dotted(st.value.args[0])
-            if guard_i is None:
-                continue
-            found += 1
-            if add_i is None or add_i < guard_i or addvar != var:
-                probs.append("visited.add(%s) missing after the guard" % var)
-            # what is produced after the guard
-            for i, st in enumerate(body):
-                for y in ast.walk(st):
-                    if isinstance(y, ast.Yield) and dotted(y.value) == var and i < guard_i:
-                        probs.append("part yielded before the visited test")
-                    if isinstance(y, ast.YieldFrom) and i < guard_i:
-                        probs.append("recursion before the visited test")
-        if not found:
-            probs.append("no visited-guard found")
-        return probs
+    from sa import paths as P_
 
-    for f, label in ((ip, "OpcPackage.iter_parts"), (ir, "OpcPackage.iter_rels")):
-        probs = visit_once(f.node, label, f)
-        # external relationships never dereference target_part
-        ext_ok = False
-        for loop in [n for n in ast.walk(f.node) if isinstance(n, ast.For)]:
-            idx_ext = idx_tp = None
-            for i, st in enumerate(loop.body):
-                if isinstance(st, ast.If) and dotted(st.test) and dotted(st.test).endswith(".is_external") and any(isinstance(x, ast.Continue) for x in st.body):
-                    idx_ext = i
-                if any(isinstance(n, ast.Attribute) and n.attr == "target_part" for n in ast.walk(st)) and idx_tp is None:
-                    idx_tp = i
-            if idx_ext is not None and idx_tp is not None and idx_ext < idx_tp:
-                ext_ok = True
-        if not ext_ok:
-            probs.append("target_part is read without skipping external relationships first")
-        if probs:
+    def loop_paths(fnode):
+        """(loop, paths through its body, aliases) for every for-loop of the function (nested definitions included)."""
+        out = []
+        for loop in [n for n in ast.walk(fnode) if isinstance(n, ast.For)]:
+            out.append((loop, P_.enum_paths(loop.body), P_.aliases(fnode)))
+        return out
+
+    def produced(ev):
+        """what a path event hands out: ('yield', expr) / ('yield-from', call) / None"""
+        if ev[0] != "stmt":
+            return None
+        st = ev[1]
+        v = st.value if isinstance(st, (ast.Expr, ast.Assign)) else None
+        if isinstance(v, ast.Yield) and v.value is not None:
+            return ("yield", v.value)
+        if isinstance(v, ast.YieldFrom):
+            return ("yield-from", v.value)
+        return None
+
+    def visit_once(f, what):
+        """Path rule: on every path through a loop body that hands out a target part (iter_parts: `yield part`; iter_rels: recursion
+        into `part.rels`), the branch decisions before it state `part not in visited` and `not rel.is_external`, and the path
+        marks the part visited (for the recursion: before recursing).  Also: no path reads `.target_part` before it has decided
+        the relationship is not external."""
+        probs = []
+        n_out = 0
+        for loop, pths, al in loop_paths(f.node):
+            for pth in pths:
+                for i, ev in enumerate(pth.events):
+                    # reading target_part needs the not-external decision
+                    node = ev[1] if ev[0] in ("stmt", "cond") else None
+                    if node is not None and any(isinstance(x, ast.Attribute) and x.attr == "target_part" for x in ast.walk(node)):
+                        fs = P_.facts(pth, i, al)
+                        if not any(a[0] == "truthy" and a[1].endswith(".is_external") and a[2] is False for a in fs):
+                            probs.append("target_part is read on a path that has not excluded external relationships (line %d)" % node.lineno)
+                    pr = produced(ev)
+                    if pr is None:
+                        continue
+                    if what == "part" and pr[0] == "yield":
+                        subj = P_.norm(pr[1], al)
+                        if not subj.endswith(".target_part"):
+                            continue
+                    elif what == "rels" and pr[0] == "yield-from" and isinstance(pr[1], ast.Call) and pr[1].args \
+                            and P_.norm(pr[1].args[0], al).endswith(".target_part.rels"):
+                        subj = P_.norm(pr[1].args[0], al)[:-len(".rels")]
+                    else:
+                        continue
+                    n_out += 1
+                    fs = P_.facts(pth, i, al)
+                    if not any(a[0] == "in" and a[1] == subj and a[2].endswith("visited") and a[3] is False for a in fs):
+                        probs.append("a target part is handed out (line %d) on a path that has not tested `part not in visited`" % ev[1].lineno)
+                    adds = [j for j, e2 in enumerate(pth.events) if e2[0] == "stmt" and any(
+                        isinstance(c, ast.Call) and isinstance(c.func, ast.Attribute) and c.func.attr == "add" and (dotted(c.func.value) or "").endswith("visited")
+                        and c.args and P_.norm(c.args[0], al) == subj for c in ast.walk(e2[1]))]
+                    if not adds:
+                        probs.append("the part handed out at line %d is never marked visited on that path" % ev[1].lineno)
+                    elif what == "rels" and min(adds) > i:
+                        probs.append("recursion at line %d happens before the part is marked visited (cycles recurse forever)" % ev[1].lineno)
+        if n_out == 0:
+            return None
+        return sorted(set(probs))
+
+    for f, label, what in ((ip, "OpcPackage.iter_parts", "part"), (ir, "OpcPackage.iter_rels", "rels")):
+        probs = visit_once(f, what)
+        if probs is None:
+            ctx.error(label, "no path that hands out a target part was recognised")
+        elif probs:
             ctx.violation("R1.2", label, "; ".join(probs), file=f.file, line=f.line)
         else:
-            ctx.ok("R1.2", label, sample={"idiom": "skip external; if part in visited: continue; ...; visited.add(part)"})
-    # iter_rels yields every rel of every collection before any filtering
-    walk = [n for n in ir.node.body if isinstance(n, ast.FunctionDef)]
+            ctx.ok("R1.2", label, sample={"every_path": "not external; part not in visited; visited.add(part)" + (" before recursing" if what == "rels" else "")})
+    # iter_rels yields every rel of every collection before any filtering: on every path through the walker's loop body the first
+    # event is `yield <loop variable>`, the loop ranges over all values of the collection it was given, and the walk starts at the
+    # package's own relationships
+    walk = [n for n in ast.walk(ir.node) if isinstance(n, ast.FunctionDef) and n is not ir.node]
     good = False
     if walk:
         w = walk[0]
         for loop in [n for n in ast.walk(w) if isinstance(n, ast.For)]:
-            first = loop.body[0]
-            good = (isinstance(loop.iter, ast.Call) and dotted(loop.iter.func) == w.args.args[0].arg + ".values"
-                    and isinstance(first, ast.Expr) and isinstance(first.value, ast.Yield) and dotted(first.value.value) == loop.target.id)
-        rec = any(isinstance(n, ast.YieldFrom) and isinstance(n.value, ast.Call) and dotted(n.value.func) == w.name
-                  and dotted(n.value.args[0]).endswith(".rels") for n in ast.walk(w))
+            pths = P_.enum_paths(loop.body)
+            first_ok = bool(pths) and all(p.events and produced(p.events[0]) is not None and produced(p.events[0])[0] == "yield"
+                                          and isinstance(loop.target, ast.Name) and dotted(produced(p.events[0])[1]) == loop.target.id for p in pths)
+            it = loop.iter
+            src_ok = isinstance(it, ast.Call) and dotted(it.func) == w.args.args[0].arg + ".values" or dotted(it) == w.args.args[0].arg
+            good = good or (first_ok and src_ok)
+        rec = any(isinstance(n, ast.YieldFrom) and isinstance(n.value, ast.Call) and dotted(n.value.func) == w.name for n in ast.walk(w))
         top = any(isinstance(n, ast.YieldFrom) and isinstance(n.value, ast.Call) and dotted(n.value.func) == w.name
-                  and dotted(n.value.args[0]) == "self._rels" for n in ir.node.body for n in ast.walk(n))
+                  and dotted(n.value.args[0]) == "self._rels" for n in ast.walk(ir.node))
         good = good and rec and top
     if good:
         ctx.ok("R1.2", "OpcPackage.iter_rels:all", sample={"yields": "every relationship of the package and of each reached part, unfiltered"})
